@@ -12,6 +12,7 @@ let rec int_of_pos = function XH -> 1 | XO p -> 2 * int_of_pos p | XI p -> 2 * i
 let int_of_n = function N0 -> 0 | Npos p -> int_of_pos p
 let z_of_int n = if n = 0 then Z0 else if n > 0 then Zpos (pos_of_int n) else Zneg (pos_of_int (-n))
 let int_of_z = function Z0 -> 0 | Zpos p -> int_of_pos p | Zneg p -> - (int_of_pos p)
+let rec int_of_nat = function O -> 0 | S n -> 1 + int_of_nat n
 let tl1 s = String.sub s 1 (String.length s - 1)
 let parse_query s =
   match s.[0] with
@@ -51,6 +52,35 @@ let parse_forest s =
   forest ()
 let show_pairs l = String.concat "," (List.map (fun (l, d) -> string_of_int (int_of_n l) ^ ":" ^ string_of_int (int_of_z d)) l)
 
+(* visit_For skeleton: V <recursive> <else> <test> <mentions> <scoped> <async> <pilb> <pbuf> (0/1 each) -> tokens *)
+let b01 b = if b then "1" else "0"
+let show_role = function Outer -> "outer" | LoopF -> "loop" | TestF -> "test" | ElseF -> "else"
+let show_line = function
+  | LDefFilter t -> "def_t" ^ string_of_int (int_of_nat t) ^ "(fiter)" | LDefLoop -> "def_loop"
+  | LFor n -> if n then "for:node" else "for" | LIf -> "if:test" | LYield -> "yield" | LTry -> "try"
+  | LLoopVars -> "loop_vars" | LRefMissing -> "ref=missing"
+  | LSet (t, v) -> "t" ^ string_of_int (int_of_nat t) ^ "=" ^ b01 v
+  | LIfT t -> "if_t" ^ string_of_int (int_of_nat t)
+  | LAssignCall (t, u) -> "t" ^ string_of_int (int_of_nat t) ^ "=t" ^ string_of_int (int_of_nat u) ^ "("
+  | LFinally t -> "finally_aclose_t" ^ string_of_int (int_of_nat t)
+let show_w = function
+  | WIn -> "in" | WFiter -> "fiter" | WAiterFiter -> "aiter_fiter" | WColon -> "colon" | WAiterOpen -> "aiter("
+  | WClose -> "close" | WReciter -> "reciter" | WTailRec -> "tail_rec" | WTailExt -> "tail_ext"
+  | WCallLoop -> "call_loop" | WAwaitCallLoop -> "await_call_loop" | WLoopArg -> "loop_arg"
+  | WCtx a -> if a then "AsyncLoopContext" else "LoopContext"
+  | WT t -> "t" ^ string_of_int (int_of_nat t) | WTCall t -> "t" ^ string_of_int (int_of_nat t) ^ "("
+let show_ev = function
+  | Begin p -> "begin:pilb=" ^ b01 p | End -> "end" | Temp -> "temp" | Indent -> "indent"
+  | Outdent n -> "outdent:" ^ string_of_int (int_of_nat n)
+  | Enter (r, lf, ilb) -> "enter:" ^ show_role r ^ ":lf=" ^ b01 lf ^ ":ilb=" ^ b01 ilb
+  | Leave (r, sc) -> "leave:" ^ show_role r ^ ":scope=" ^ b01 sc
+  | Block (body, r, ilb, b) -> "block:" ^ (if body then "body" else "else") ^ ":" ^ show_role r ^ ":ilb=" ^ b01 ilb
+                               ^ ":buf=" ^ (match b with BufNone -> "none" | BufOwn -> "own" | BufSame -> "same")
+  | Visit (w, r) -> "visit:" ^ (match w with Target -> "target" | Iter -> "iter" | Test -> "test") ^ ":" ^ show_role r
+  | Buffer r -> "buffer:" ^ show_role r | ReturnBuffer r -> "return_buffer:" ^ show_role r
+  | StartWrite r -> "start_write:" ^ show_role r | EndWrite -> "end_write"
+  | Line l -> "line:" ^ show_line l | W w -> "w:" ^ show_w w
+
 let () =
   try while true do
     let line = input_line stdin in
@@ -81,6 +111,11 @@ let () =
       let ys = if filtered then List.filter (pred f) xs else xs in
       let s = (if ys = [] then "1 " else "0 ") ^ show_its (spec ys d0 sc) in
       print_endline ("M " ^ m ^ " S " ^ s)
+    | ["V"; r; e; t; m; sc; a; p; b] ->
+      let tb x = x = "1" in
+      let c = { recursive = tb r; has_else = tb e; has_test = tb t; mentions = tb m; scoped = tb sc; is_async = tb a;
+                pilb = tb p; pbuf = tb b } in
+      print_endline (String.concat " " (List.map show_ev (for_trace c)))
     | "T" :: d0 :: rest ->
       let f = parse_forest (String.concat " " rest) in
       let d0 = z_of_int (int_of_string d0) in
